@@ -2,7 +2,10 @@
 import p_seqprops
 
 PROPS = ["C01","C03","C04"]
-PROFILES = [(3, {"n_setup": (3, 6), "share_fd_prob": 0.05, "script_prob": 0.9, "script_len": (1, 4)}), (1, {})]
+PROFILES = [(3, {"n_setup": (3, 6), "share_fd_prob": 0.05, "script_prob": 0.9, "script_len": (1, 4)}), (1, {}),
+            # composites whose last sub-source is a Timer: every event of a sibling is shown to the Timer as well
+            (2, {"kinds": {"compt": 5, "comp": 2, "ping": 1, "timer": 1, "chan": 1}, "share_fd_prob": 0.0, "script_prob": 0.8,
+                 "n_cmds": (12, 34), "err_ret_prob": 0.0})]
 
 
 def main(tier, seed):
